@@ -191,6 +191,56 @@ def view(I, v):
     return out
 
 
+NATIVE_ATTRS = {
+    "dict": {"get", "keys", "values", "items", "setdefault", "pop", "popitem", "update", "clear", "copy", "fromkeys"},
+    "list": {"append", "extend", "insert", "pop", "remove", "clear", "index", "count", "sort", "reverse", "copy"},
+    "str": {"lower", "upper", "strip", "lstrip", "rstrip", "split", "rsplit", "join", "startswith", "endswith", "format",
+            "replace", "encode", "isdigit", "isalpha", "isalnum", "isspace", "splitlines", "find", "rfind", "index",
+            "rindex", "count", "title", "capitalize", "casefold", "zfill", "partition", "rpartition", "swapcase",
+            "center", "ljust", "rjust", "expandtabs", "islower", "isupper", "isnumeric", "isdecimal", "isidentifier",
+            "removeprefix", "removesuffix", "translate", "format_map", "istitle", "isascii", "isprintable", "maketrans"},
+}
+# attributes of int/float/bool/None objects: not modelled
+_NUM_ATTRS = {"real", "imag", "numerator", "denominator", "bit_length", "bit_count", "conjugate", "is_integer", "hex",
+              "as_integer_ratio", "to_bytes", "from_bytes", "fromhex"}
+_RECS = None
+
+
+def exec_tag_view(I, v, tag):
+    """exec mode: one two-way branch `is the value a <tag>?`; the view when it is, None when it is not"""
+    rec = {"dict": is_dict, "list": is_list, "str": is_str}[tag]
+    cache = getattr(v, "_pviews", None)
+    if cache is None:
+        cache = v._pviews = {}
+    if tag in cache:
+        return cache[tag]
+    e = z3.simplify(v.e)
+    wf(I, e)
+    out = _mk_view(I, e, tag) if I.path.branch(rec(e)) else None
+    cache[tag] = out
+    return out
+
+
+def exec_attr_view(I, v, name):
+    """exec mode attribute access on a Dyn value: the ordinary value that owns attribute `name`, or None when the
+    runtime value has no such attribute (the caller raises AttributeError / uses the getattr default)"""
+    if name.startswith("__") or name in _NUM_ATTRS:
+        raise Unsupported("attribute %s of a Dyn value" % name)
+    owners = [t for t in ("dict", "list", "str") if name in NATIVE_ATTRS[t]]
+    if not owners:
+        return None
+    if len(owners) == 1:
+        return exec_tag_view(I, v, owners[0])
+    o = view(I, v)
+    if isinstance(o, VMap):
+        return o if "dict" in owners else None
+    if isinstance(o, VSeq):
+        return o if "list" in owners else None
+    if isinstance(o, VStr):
+        return o if "str" in owners else None
+    return None
+
+
 def spec_view(I, v, tag):
     """spec mode: look at a Dyn value as if it had the given type (unspecified payload when it has not)"""
     wf(I, v.e)
@@ -309,11 +359,43 @@ def py_lt(I, a, b, strict):
     return z3.If(z3.And(is_num(e), is_num(f)), nlt, z3.If(z3.And(is_str(e), is_str(f)), slt, ule(e, f)))
 
 
+def float_terms(e):
+    """(defined?, value) of float(x): numbers convert numerically, a string through the uninterpreted pair
+    str_float_ok / str_float_val (python's float literal syntax is not modelled), anything else is a TypeError"""
+    fok = z3.Function("str_float_ok", z3.StringSort(), z3.BoolSort())
+    fval = z3.Function("str_float_val", z3.StringSort(), z3.RealSort())
+    return z3.Or(is_num(e), z3.And(is_str(e), fok(js(e)))), z3.If(is_num(e), num(e), fval(js(e)))
+
+
+def int_terms(I, e):
+    """(defined?, value) of int(x): bool/int exact, float truncated toward zero, str through int_parses/int_value"""
+    from .builtins import int_parse_terms, real_to_int_trunc
+    ip, iv = int_parse_terms(I, js(e))
+    ok = z3.Or(is_int(e), is_bool(e), is_real(e), z3.And(is_str(e), ip))
+    val = z3.If(is_int(e), ji(e), z3.If(is_bool(e), z3.If(jb(e), z3.IntVal(1), z3.IntVal(0)),
+                                        z3.If(is_real(e), real_to_int_trunc(jr(e)), iv)))
+    return ok, val
+
+
+def _convert(I, v, ok, val, wrap):
+    if I.spec:
+        return wrap(val)
+    if I.path.branch(ok):
+        return wrap(val)
+    if I.path.branch(is_str(v.e)):
+        I.raise_exc("ValueError", "could not convert string")
+    I.raise_exc("TypeError", "argument must be a string or a number")
+
+
 def to_float(I, v):
-    """float(x) as a total term in spec mode (parse of a string: uninterpreted)"""
-    e = v.e
-    uf = z3.Function("dyn_float_undef", JV, z3.RealSort())
-    return z3.If(is_num(e), num(e), uf(e))
+    """float(x) for a Dyn value (exec mode: one branch on definedness; spec mode: the total term)"""
+    ok, val = float_terms(v.e)
+    return _convert(I, v, ok, val, VReal)
+
+
+def to_int(I, v):
+    ok, val = int_terms(I, v.e)
+    return _convert(I, v, ok, val, VInt)
 
 
 def to_str_term(I, v):
@@ -367,6 +449,30 @@ def sp_dyn(I, args, kw):
     return _dy(args)
 
 
+def sp_dyn_float(I, args, kw):
+    return VReal(float_terms(_dy(args).e)[1])
+
+
+def sp_dyn_float_ok(I, args, kw):
+    return VBool(float_terms(_dy(args).e)[0])
+
+
+def sp_dyn_int(I, args, kw):
+    return VInt(int_terms(I, _dy(args).e)[1])
+
+
+def sp_dyn_int_ok(I, args, kw):
+    return VBool(int_terms(I, _dy(args).e)[0])
+
+
+def sp_dyn_str(I, args, kw):
+    return VStr(to_str_term(I, _dy(args)))
+
+
+def sp_dyn_truthy(I, args, kw):
+    return VBool(truth(_dy(args)))
+
+
 def sp_dyn_same(I, args, kw):
     """structural identity of two Dyn values (stronger than python ==)"""
     return VBool(to_dyn(args[0]) == to_dyn(args[1]))
@@ -378,6 +484,8 @@ SPEC_FUNCS = {
     "is_number": lambda I, args, kw: VBool(is_num(_dy(args).e)),
     "as_str": sp_as_str, "as_list": sp_as_list, "as_dict": sp_as_dict, "as_int": sp_as_int, "as_bool": sp_as_bool,
     "as_float": sp_as_float, "dyn": sp_dyn, "dyn_same": sp_dyn_same,
+    "dyn_float": sp_dyn_float, "dyn_float_ok": sp_dyn_float_ok, "dyn_int": sp_dyn_int, "dyn_int_ok": sp_dyn_int_ok,
+    "dyn_str": sp_dyn_str, "dyn_truthy": sp_dyn_truthy,
 }
 
 
